@@ -16,7 +16,7 @@ def _nt(f):
 
 
 def _strategy(tier):
-    return market_cases(max_ops=80 if tier == "quick" else 300, market_frac=2, toggles=True, pre_ticks=True)
+    return market_cases(max_ops=80 if tier == "quick" else 300, market_frac=2, toggles=True, pre_ticks=True, jumps=True)
 
 
 PARTS = {"machine": {"check": make_check({"C08"}, _nt), "strategy": _strategy,
